@@ -100,6 +100,7 @@ type TaskSpec struct {
 	Argv    []string   `json:"argv,omitempty"`
 	Files   []SimFile  `json:"files,omitempty"`
 	Extra   []TaskSpec `json:"extra,omitempty"`
+	Formula *ref.BF    `json:"formula,omitempty"`
 	Note    string     `json:"note,omitempty"`
 }
 
